@@ -84,6 +84,53 @@ func checkC14(c *Ctx) {
 		}
 	}
 
+	// (1b) the new version is published (cached latest version, tree.version, working/lastSaved trees)
+	// only after the physical commit succeeded — or on the `already exists` edge of the idempotent re-save
+	c.rule("ORDER-publish-after-commit", "SaveVersion publishes the new version number only after Commit() returned nil", 3)
+	{
+		commitF := l.Func("", "*nodeDB.Commit")
+		rlvF := l.Func("", "*nodeDB.resetLatestVersion")
+		fVer := l.Field("", "ImmutableTree", "version")
+		fLast0 := l.Field("", "MutableTree", "lastSaved")
+		fImm0 := l.Field("", "MutableTree", "ImmutableTree")
+		if commitF == nil || rlvF == nil || fVer == nil || fLast0 == nil || fImm0 == nil {
+			c.anchorMissing("ORDER-publish-after-commit", "nodeDB.Commit / resetLatestVersion / ImmutableTree.version / lastSaved")
+		} else {
+			var commitCall *ssa.Call
+			for _, in := range callsIn(sv, predStatic(commitF)) {
+				if cl, ok := in.(*ssa.Call); ok {
+					commitCall = cl
+				}
+			}
+			existsEdge := func(in ssa.Instruction) bool {
+				for _, g := range gs {
+					if edgeDominates(g.iff.Block(), 1-g.pass, in.Block()) {
+						return true
+					}
+				}
+				return false
+			}
+			var pubs []ssa.Instruction
+			pubs = append(pubs, callsIn(sv, predStatic(rlvF))...)
+			allInstrs(sv, func(in ssa.Instruction) {
+				if isStoreToField(in, fVer, fLast0, fImm0) {
+					pubs = append(pubs, in)
+				}
+			})
+			if commitCall == nil {
+				c.bad("ORDER-publish-after-commit", "SaveVersion commits", l.pos(sv.Pos()), "SaveVersion no longer calls nodeDB.Commit")
+			}
+			for _, p := range pubs {
+				if commitCall == nil {
+					break
+				}
+				ok := okEdgeDominates(commitCall, p) || existsEdge(p)
+				c.decide("ORDER-publish-after-commit", "SaveVersion "+describe(l, p), l.ipos(p), ok, "after Commit() == nil (or on the idempotent re-save edge)",
+					"the version is published before the physical commit is known to have succeeded: a failed commit leaves a version number that VersionExists / AvailableVersions report but that is not in the store")
+			}
+		}
+	}
+
 	// (2)
 	fImm := l.Field("", "MutableTree", "ImmutableTree")
 	fLast := l.Field("", "MutableTree", "lastSaved")
@@ -163,6 +210,28 @@ func checkC14(c *Ctx) {
 	}
 
 	checkVersionRangeTable(c)
+	// the range is re-discovered from storage after a reopen: a failed probe must be an error, not "absent"
+	c.rule("ERR-version-range", "storage errors in the version-range discovery and existence probes are surfaced, not read as 'absent'", 15)
+	{
+		ea := newErrAnalysis(c, l)
+		var fns []*ssa.Function
+		for _, n := range []string{"*nodeDB.getFirstVersion", "*nodeDB.getFirstNonLegacyVersion", "*nodeDB.getLatestVersion", "*nodeDB.hasVersion", "*nodeDB.getLegacyLatestVersion",
+			"*MutableTree.versionExists", "*MutableTree.VersionExists", "*MutableTree.AvailableVersions", "*nodeDB.GetRoot", "*nodeDB.HasVersion"} {
+			if f := l.Func("", n); f != nil {
+				fns = append(fns, f)
+			}
+		}
+		ea.runE1E2E4("ERR-version-range", "ERR-version-range", "ERR-version-range", func(fn *ssa.Function) bool {
+			for f := fn; f != nil; f = f.Parent() {
+				for _, g := range fns {
+					if f == g {
+						return true
+					}
+				}
+			}
+			return false
+		})
+	}
 	checkOverwriteTable(c)
 
 	// (3)
